@@ -273,10 +273,13 @@ def model_copy(ctx, rep, direction):
     flt_tmp = lambda name: not (name.endswith(".tmp") or name.startswith("_") or name == "build")
     for chunk, debug_on, stale in [(c_, False, False) for c_ in (1, 64, 256, 768, 1000, 16000)] + [(256, True, False), (256, False, True)]:
         for flt_name, flt in (("no filter", None), ("filter", flt_tmp)):
-            for what in ("tree", "file", "empty file", "tree named with a trailing separator"):
+            for what in ("tree", "file", "empty file", "tree named with a trailing separator",
+                         "tree whose own name the filter would reject as an entry", "file whose own name the filter would reject as an entry"):
                 if chunk == 1 and what.startswith("tree"):
                     continue
-                if what.endswith("separator") and (chunk != 256 or stale or debug_on):
+                if (what.endswith("separator") or what.endswith("as an entry")) and (chunk != 256 or stale or debug_on):
+                    continue
+                if what.endswith("as an entry") and flt is None:
                     continue
                 runs += 1
                 sfiles, sdirs = _tree("src")
@@ -297,8 +300,11 @@ def model_copy(ctx, rep, direction):
                     glob[nm] = (lambda f: lambda *a, **k: MI.call_function(f.node, list(a), extra, k))(f)
                 extra["__globals__"] = glob
                 extra["__global_lookup__"] = _glookup(ctx, mod, extra)
-                s_path = {"tree": "src", "file": "src/a.bin", "empty file": "src/empty"}.get(what, "src/")
-                d_path = "out/copy"
+                s_path = {"tree": "src", "file": "src/a.bin", "empty file": "src/empty",
+                          "tree whose own name the filter would reject as an entry": "src/cache.tmp",
+                          "file whose own name the filter would reject as an entry": "src/skip.tmp"}.get(what, "src/")
+                # (the caller names source and destination; the filter selects among the ENTRIES of a directory)
+                d_path = "out/copy.tmp" if what.endswith("as an entry") else "out/copy"
                 try:
                     kw = {"chunk_size": chunk}
                     if flt is not None:
